@@ -206,8 +206,8 @@ pub struct Summary {
     pub machinery: Vec<String>,
     /// (idx, message), capped
     pub violations: Vec<(u64, String)>,
-    /// message prefix -> (count, smallest idx)
-    pub viol_kinds: BTreeMap<String, (u64, u64)>,
+    /// class -> (count, smallest idx, message of that case)
+    pub viol_kinds: BTreeMap<String, (u64, u64, String)>,
 }
 const VIOL_CAP: usize = 40;
 impl Summary {
@@ -234,7 +234,7 @@ impl Summary {
                 let key: String = out.class.clone();
                 let fresh = !self.viol_kinds.contains_key(&key);
                 if self.viol_kinds.len() < 400 || !fresh {
-                    let e = self.viol_kinds.entry(key).or_insert((0, idx));
+                    let e = self.viol_kinds.entry(key).or_insert((0, idx, m.clone()));
                     e.0 += 1;
                 }
                 // keep the first example of every kind, then fill up to the cap
@@ -274,9 +274,12 @@ impl Summary {
             }
         }
         for (k, v) in &o.viol_kinds {
-            let e = self.viol_kinds.entry(k.clone()).or_insert((0, v.1));
+            let e = self.viol_kinds.entry(k.clone()).or_insert((0, v.1, v.2.clone()));
             e.0 += v.0;
-            e.1 = e.1.min(v.1);
+            if v.1 < e.1 {
+                e.1 = v.1;
+                e.2 = v.2.clone();
+            }
         }
     }
     pub fn to_json(&self) -> Value {
@@ -287,7 +290,7 @@ impl Summary {
             "violations_total": self.violations_total,
             "machinery": self.machinery,
             "violations": self.violations.iter().map(|(i,m)| json!([i, m])).collect::<Vec<_>>(),
-            "viol_kinds": self.viol_kinds.iter().map(|(k,v)| (k.clone(), json!([v.0, v.1]))).collect::<BTreeMap<_,_>>(),
+            "viol_kinds": self.viol_kinds.iter().map(|(k,v)| (k.clone(), json!([v.0, v.1, v.2]))).collect::<BTreeMap<_,_>>(),
         })
     }
     pub fn from_json(v: &Value) -> Option<Summary> {
@@ -313,7 +316,7 @@ impl Summary {
             s.violations.push((x.get(0)?.as_u64()?, x.get(1)?.as_str()?.to_string()));
         }
         for (k, c) in v.get("viol_kinds")?.as_object()? {
-            s.viol_kinds.insert(k.clone(), (c.get(0)?.as_u64()?, c.get(1)?.as_u64()?));
+            s.viol_kinds.insert(k.clone(), (c.get(0)?.as_u64()?, c.get(1)?.as_u64()?, c.get(2)?.as_str()?.to_string()));
         }
         Some(s)
     }
@@ -377,7 +380,8 @@ pub fn worker_main(p: &dyn Property, shard: u64, of: u64, from: u64, to: u64, pr
     let line = json!({"summary": sum.to_json(), "from": from, "to_pos": pos});
     let stdout = std::io::stdout();
     let mut h = stdout.lock();
-    let _ = writeln!(h, "@@MC-SUMMARY@@{}", line);
+    // the subject may have left an unterminated line on stdout (print without newline)
+    let _ = writeln!(h, "\n@@MC-SUMMARY@@{}", line);
     let _ = h.flush();
 }
 
@@ -489,7 +493,7 @@ fn run_child(
         if let Some(st) = status {
             if st.success() {
                 for line in out_s.lines() {
-                    if let Some(rest) = line.strip_prefix("@@MC-SUMMARY@@") {
+                    if let Some(rest) = line.find("@@MC-SUMMARY@@").map(|p| &line[p + 14..]) {
                         if let Ok(v) = serde_json::from_str::<Value>(rest) {
                             if let Some(s) = v.get("summary").and_then(Summary::from_json) {
                                 return (Some(s), None, None);
@@ -640,21 +644,16 @@ pub fn parent_main(p: &dyn Property, tier: Tier) -> RunResult {
         println!("KNOWN-FINDING: property={} {}: {} ({} cases, e.g. {})", id, fid, what, n, path.display());
         known_seen.push(json!({"id": fid, "cases": n, "example": path.display().to_string()}));
     }
-    for (k, (idx, msg)) in sum.violations.iter().enumerate() {
+    // one replay file and one VIOLATION line per violation class (smallest failing case of the class)
+    for (k, (class, (n, idx, msg))) in sum.viol_kinds.iter().enumerate() {
         let path = write_replay(&format!("violation-{:03}", k), *idx, msg);
-        if k < 12 {
+        if k < 40 {
             println!("VIOLATION property={} replay={}", id, path.display());
-            println!("  -> {}", one_line(msg, 300));
-        }
-    }
-    if !sum.viol_kinds.is_empty() {
-        println!("violation kinds (class: count, smallest case):");
-        for (k, (n, i)) in &sum.viol_kinds {
-            println!("  {:>8} x  {}   e.g. #{} {}", n, one_line(k, 90), i, one_line(&p.describe(*i).to_string(), 140));
+            println!("  -> [{} x {}] {}", n, one_line(class, 80), one_line(msg, 400));
         }
     }
     if sum.violations_total as usize > 25 {
-        println!("  ({} violations in total; first {} written to {})", sum.violations_total, sum.violations.len(), replay_dir.display());
+        println!("  ({} violations in total in {} classes; one replay per class in {})", sum.violations_total, sum.viol_kinds.len(), replay_dir.display());
     }
     for m in &machinery {
         println!("MACHINERY-ERROR: {}", m);
